@@ -281,7 +281,15 @@ def _run_case(ctx, case, dcf):
         w.call("dump(skip_default)", lambda c: p.dump(c, skip_default=True), cfg)
         with _rt.scratch_dir() as dd:
             w.call("save", lambda c: p.save(c, os.path.join(dd, "out.yaml"), overwrite=True), cfg)
+        # a caller-supplied base / namespace (with and without the parser's defaults merged in) is an input like any other
+        for dflt in (True, False):
+            w.call(f"parse_object(cfg_base=Namespace, defaults={dflt})", lambda o, b, dflt=dflt: p.parse_object(o, cfg_base=b, defaults=dflt), obj, cfg.clone())
+            w.call(f"parse_object(cfg_base=empty Namespace, defaults={dflt})", lambda o, b, dflt=dflt: p.parse_object(o, cfg_base=b, defaults=dflt), obj, Namespace())
+            if argv is not None:
+                w.call(f"parse_args(namespace=Namespace, defaults={dflt})", lambda a, b, dflt=dflt: p.parse_args(a, namespace=b, defaults=dflt), argv, cfg.clone())
+                w.call(f"parse_args(namespace=empty Namespace, defaults={dflt})", lambda a, b, dflt=dflt: p.parse_args(a, namespace=b, defaults=dflt), argv, Namespace())
         other = p.get_defaults()
+        w.call("merge_config(into empty)", p.merge_config, cfg, Namespace())
         w.call("merge_config", p.merge_config, cfg, other)
         w.call("merge_config(reversed)", p.merge_config, other, cfg)
         w.call("strip_unknown", p.strip_unknown, cfg)
